@@ -239,7 +239,25 @@ class RealWorld(object):
             self.obs('fired %d ok %s' % (i, fmt_val(v)))
         def eb(f, i=i):
             self.obs('fired %d fail %s' % (i, err_name(f)))
+            self.run_reentrant()
         d.addCallbacks(cb, eb)
+
+    def run_reentrant(self):
+        """an application errback that calls the API again (armed by `reenter <op ...>`, one shot): the nested call's observations
+        appear between `reenter-begin` and `reenter-end` inside the step whose processing fired the Deferred"""
+        tok = getattr(self, 'reenter', None)
+        if not tok:
+            return
+        self.reenter = None
+        self.obs('reenter-begin')
+        try:
+            getattr(self, 'op_' + tok[0])(*tok[1:])
+        except Exception as e:
+            self.obs('raised %s' % err_name(e))
+        self.obs('reenter-end')
+
+    def op_reenter(self, *tok):
+        self.reenter = list(tok)
 
     # ---- timers ----------------------------------------------------------------
     def timer_desc(self, dc):
